@@ -22,8 +22,9 @@ Points    == {"O", "A", "Bc", "Cn", "A2"}
 PathTokens == Letters \cup Points \cup {"bad", "empty"}
 
 \* absolute coordinates; the object sits at O.  A2 truncates to A.
-Coord(p) == CASE p = "O" -> <<10, 10>> [] p = "A" -> <<50, 50>> [] p = "A2" -> <<50, 50>>
-              [] p = "Bc" -> <<90, 90>> [] p = "Cn" -> <<100, 0>>
+\* (x # y relative to the object for every point except O, so that a swapped coordinate shows)
+Coord(p) == CASE p = "O" -> <<10, 10>> [] p = "A" -> <<50, 30>> [] p = "A2" -> <<50, 30>>
+              [] p = "Bc" -> <<90, 50>> [] p = "Cn" -> <<100, 0>>
 \* canonical name after integer truncation
 Canon(p) == IF p = "A2" THEN "A" ELSE p
 
